@@ -98,9 +98,89 @@ def run_processor_shape(shape):
     return out
 
 
+def shared_shapes(tier):
+    """A payload-carrying SQL-side node (materialization / transfer of an earlier process()) read by several trees that are compiled
+    one after the other: the rows of each must stay within its static bounds (the node's exact bounds come from the leaf)."""
+    X = ("leaf", "X")
+    K = ("gt", ("ref", "a"), ("lit", "$k1"))
+    out = []
+    for base in (("proc", ("mat", ("xfer", X, "sq"), "mm")), ("proc", ("xfer", X, "sq")), ("proc", ("mat", ("xfer", ("dedup", X), "sq"), "mm"))):
+        for first in (("sel", base, K), ("calc", base, "d", ("add", ("ref", "a"), ("ref", "b"))), ("sel", ("calc", base, "d", ("neg", ("ref", "a"))), K),
+                      ("join", ("sel", base, K), ("proc", ("xfer", ("proj", X, ("a",)), "sq")), None)):
+            for then in (base, ("dedup", base), ("proj", base, ("a", "b")), ("chain", base, base)):
+                out.append({"eng": "sq", "prog": ("seq", first, then), "params": {"$k1": [None, None]}, "cons": [], "n": 2, "labels": ["shared-payload"],
+                            "shared": True})
+    return out
+
+
+def run_shared_shape(shape):
+    from .. import sqlmodel, symproc
+    from ..sqlprogs import strip_ignored, model_rows
+
+    _, first, then = shape["prog"]
+
+    def run(ctx, vals=None):
+        env = Env(symbolic=ctx is not None)
+        rows = [{c: (ctx.int(f"X.{c}{i}") if ctx is not None else int(vals.get(f"X.{c}{i}", 0))) for c in "abc"} for i in range(shape["n"])]
+        env.add_iter_leaf("X", "abc", rows, engine="it1")
+        if ctx is not None:
+            templates.declare(ctx, env, shape["params"], shape["cons"])
+        else:
+            env.bind = templates.bind_concrete(shape["params"], vals)
+        memo = {}
+        res = []
+        for prog in (first, then, first):
+            rel = build(prog, env, memo)
+            ex = env.engines["sq"].to_executable(rel)
+            res.append((prog, rel, strip_ignored(sqlmodel.select(ex, env.tables))))
+        return env, res
+
+    def h(ctx):
+        try:
+            env, res = run(ctx)
+        except Exception as e:  # noqa: BLE001
+            return [("trees over a shared payload compile", False, {"exc": f"{type(e).__name__}: {e}"[:160]})]
+        obs = []
+        for i, (prog, rel, got) in enumerate(res):
+            cnt = relmodel.index_order(got).count()
+            hi = rel.max_rows
+            obs.append((f"statement {i + 1}: row count within [min_rows, max_rows]", z3.And(cnt >= rel.min_rows, z3.BoolVal(True) if hi is None else cnt <= hi),
+                        {"tree": str(rel), "bounds": [rel.min_rows, hi]}))
+            obs.append((f"statement {i + 1}: rows == direct evaluation", relmodel.mset_eq(relmodel.unordered(got), relmodel.unordered(sem_seq(prog, env))), {"tree": str(rel)}))
+        return obs
+
+    res = explore(h, max_paths=1000, wall_s=120)
+    out = res.as_dict()
+    out["shape"] = {"eng": "sq (shared payload)", "first": fmt(first), "then": fmt(then)}
+    out["sample"] = {"engine": "sql over a processed transfer / materialization", "compiled in turn": [fmt(first), fmt(then), fmt(first)], "paths": res.paths}
+    for cx in res.cex[:1]:
+        bad = None
+        try:
+            env, r3 = run(None, cx["model"])
+            xrows = [{c: int(cx["model"].get(f"X.{c}{i}", 0)) for c in "abc"} for i in range(shape["n"])]
+            for i, (prog, rel, got) in enumerate(r3):
+                rows = model_rows(got)
+                exp = pyeval(prog, {"X": xrows}, env.bind, env.tags)
+                if not (rel.min_rows <= len(rows) and (rel.max_rows is None or len(rows) <= rel.max_rows)) or common.canon(rows) != common.canon(exp):
+                    bad = f"statement {i + 1} ({fmt(prog)}): rows {rows}, direct evaluation {exp}, bounds [{rel.min_rows}, {rel.max_rows}]"
+                    break
+        except Exception as e:  # noqa: BLE001
+            bad = f"raises {type(e).__name__}: {e}"[:160]
+        if bad is None:
+            out["status"], out["detail"] = "harness-error", f"counterexample does not reproduce: {fmt(first)} then {fmt(then)}"
+            return out
+        out["status"] = VIOLATION
+        out["violations"] = [{"site": f"shared-payload:{'>'.join(ops_of(first))} then {'>'.join(ops_of(then))}/rows-outside-bounds-or-differ",
+                              "summary": f"compiled in turn {fmt(first)}, {fmt(then)}, {fmt(first)}: {bad}",
+                              "replay": {"shared": True, "shape": to_jsonable(shape), "model": cx["model"]}}]
+        return out
+    out["status"] = INCONCLUSIVE if (res.inconclusive or not res.complete) else HOLDS
+    return out
+
+
 def shapes(tier, seed):
     n = 2 if tier == "quick" else 3
-    out = processor_shapes(tier)
+    out = processor_shapes(tier) + shared_shapes(tier)
     depth = 2 if tier == "quick" else 3
     lab3 = ("slice s:e", "slice s:", "dedup", "sel a>k", "sel false", "proj none", "proj -a", "calc d", "sort a")
 
@@ -158,7 +238,7 @@ def shapes(tier, seed):
     # the statement the engine emits, e.g. LIMIT/OFFSET boundary cases)
     seen = set()
     for sh in list(out):
-        if sh.get("eng") == "sq" and not sh.get("processor") and repr(sh["prog"]) not in seen and "'W'" not in repr(sh["prog"]):
+        if sh.get("eng") == "sq" and not sh.get("processor") and not sh.get("shared") and repr(sh["prog"]) not in seen and "'W'" not in repr(sh["prog"]):
             seen.add(repr(sh["prog"]))
             s2 = dict(sh)
             s2["sqlcount"] = True
@@ -205,6 +285,8 @@ def _history(env, prog, used, eng):
 def run_shape(shape, tier):
     if shape.get("processor"):
         return run_processor_shape(shape)
+    if shape.get("shared"):
+        return run_shared_shape(shape)
     if shape.get("kind") == "processed":
         from . import c03
         return c03.run_processed_shape(shape)
@@ -391,6 +473,11 @@ def replay(v):
     if r.get("processed"):
         from . import c03
         return c03.replay(v)
+    if r.get("shared"):
+        sh = r["shape"]
+        sh["prog"] = from_jsonable(sh["prog"])
+        out = run_shared_shape(sh)
+        return out["status"] == VIOLATION, str(out.get("violations", [{}])[0].get("summary", "agrees"))
     if r.get("processor"):
         sh = r["shape"]
         sh["prog"] = from_jsonable(sh["prog"])
